@@ -19,7 +19,7 @@ import subprocess
 
 from harness.vlib.core import PY, Ctx, ToolFailure, repo_env
 from harness.c05 import progen
-from harness.c05.front import HERE, compile_ext, front
+from harness.c05.front import HERE, compile_ext, front, report, violation_nf
 
 
 def drive(d: str, jobs, out: str, compiled: bool, timeout: int = 300) -> tuple[dict, str | None]:
@@ -261,7 +261,7 @@ def run(ctx: Ctx, pool, col=None):
         secs_total += secs
         if not ok:
             # the front half accepted the group: a failure of the back half / C compiler on an accepted program
-            ctx.report({"class": "compile-fails-after-front-half", "config": tag},
+            report(ctx, "prog", {"class": "compile-fails-after-front-half", "config": tag},
                        f"mypyc could not build an accepted program group ({tag}): {log[-300:]}",
                        {"kind": "prog", "config": tag, "sources": {m: s for _, ss, _ in grp for m, s in ss.items()}, "log": log[-2000:]})
             continue
@@ -290,7 +290,7 @@ def run(ctx: Ctx, pool, col=None):
                     shape = _tys
                     if (shape, tag) not in known_seen:
                         known_seen.add((shape, tag))
-                        ctx.report({"class": "probe-differs", "shape": shape},
+                        report(ctx, "prog", {"class": "probe-differs", "shape": shape},
                                    f"probe {fn}({', '.join(args)}) [{tag}]: compiled {b[0][:120]!r} log {b[1][:60]!r}; "
                                    f"CPython {a[0][:120]!r} log {a[1][:60]!r}",
                                    {"kind": "prog", "config": tag, "module": name, "call": [fn, args], "sources": sources,
@@ -300,7 +300,7 @@ def run(ctx: Ctx, pool, col=None):
                 for sh in shapes:
                     if (sh, tag) not in known_seen:
                         known_seen.add((sh, tag))
-                        ctx.report({"class": "program-differs", "shape": sh},
+                        report(ctx, "prog", {"class": "program-differs", "shape": sh},
                                    f"{name}.{fn}({', '.join(args)}) [{tag}]: compiled {got[(name, k)][0][:100]!r} log "
                                    f"{got[(name, k)][1][:100]!r}; CPython {ref[(name, k)][0][:100]!r} log {ref[(name, k)][1][:100]!r}",
                                    {"kind": "prog", "config": tag, "module": name, "call": [fn, args], "sources": sources,
@@ -311,7 +311,7 @@ def run(ctx: Ctx, pool, col=None):
                     continue
                 reported = True
                 kind = classify(a, b)
-                ctx.report({"class": "program-differs", "what": kind, "config": tag},
+                report(ctx, "prog", {"class": "program-differs", "what": kind, "config": tag},
                            f"{name}.{fn}({', '.join(args)}) [{tag}]: compiled {b[0][:140]!r} log {b[1][:80]!r}; "
                            f"CPython {a[0][:140]!r} log {a[1][:80]!r}",
                            {"kind": "prog", "config": tag, "module": name, "call": [fn, args], "sources": sources,
